@@ -101,3 +101,29 @@ func zzMetadataAdopt(steps int) {
 		zzMetadataInv(t)
 	}
 }
+
+//vrt:use internal/metainfo
+
+// ZZParseInfoLimits: an info dictionary from resume data or from peers (the
+// decoder yields an arbitrary dictionary: <=2 files, <=3 piece hashes, all
+// lengths symbolic) with an arbitrary resume version and an arbitrary
+// configured piece-count limit: parseInfo rejects it or returns a description
+// with a positive piece length, 1..MaxPieces pieces and a known version.
+//
+//vrt:cover ZZParseInfoLimits too many pieces rejected
+//vrt:cover ZZParseInfoLimits accepted
+func ZZParseInfoLimits() {
+	s := zzSession()
+	s.config.MaxPieces = uint32(vrt.Choice("max_pieces", 4))
+	version := vrt.Choice("resume_version", 5)
+	b, ib := metainfo.ZZPrepareSymbolicInfo(2, 3)
+	info, err := s.parseInfo(b, version)
+	if err != nil {
+		vrt.Cover(version >= 1 && version <= 3 && len(ib.Pieces) == 60 && s.config.MaxPieces < 3, "too many pieces rejected")
+		return
+	}
+	vrt.Cover(true, "accepted")
+	vrt.Assert(version >= 1 && version <= 3, "info accepted with an unknown resume data version")
+	vrt.Assert(info.NumPieces >= 1 && info.NumPieces <= s.config.MaxPieces, "info accepted with more pieces than the configured maximum")
+	vrt.Assert(info.PieceLength > 0 && info.Length >= 0, "accepted info is not well-formed")
+}
